@@ -748,7 +748,7 @@ pub fn legal_doc(rng: &mut Rng, v2: bool) -> El {
     }
     if v2 && rng.chance(1, 3) {
         let mut n = El::new("note", &[]);
-        n.kids.push(Node::Raw(pk(rng, &["a note", "x &amp; y", "line1\nline2", "\u{e9}"]).to_string()));
+        n.kids.push(Node::Raw(pk(rng, &["a note", "x &amp; y", "line1\nline2", "\u{e9}", "a\r\nb", "a\rb &lt;c&gt;"]).to_string()));
         let at = rng.below(root.kids.len() + 1);
         root.kids.insert(at, Node::El(n));
     }
